@@ -253,7 +253,8 @@ theorem round_c14 {a : A} {s : State} (inv : Inv cfg a s) (r : Round) (hwf : Rou
       exact sim_quiet hsP tP.aopen (top_ticks ok hfuel tP).aopen hn' (ticks_J cfg jP) (E1 ++ E2) (by rw [heT, hq0])
     have ctT : CT cfg s (ticks cfg sP) :=
       (ct_top tP hq0).bind (fun h' => ct_ticks ok hall hfuel h') (Or.inr (noClose_of_out hq0))
-    unfold goStart
+    unfold goStartU preU
+    simp only [List.isEmpty_nil, if_true]
     generalize hXc : ({ preAcc a r with w := preW a r } : A).chk
       ((closes (E1 ++ E2)).isEmpty || !(wfails (E1 ++ E2)).isEmpty) "C07"
       "a connection was closed before any frame was read in this round" = Xc
@@ -264,9 +265,9 @@ theorem round_c14 {a : A} {s : State} (inv : Inv cfg a s) (r : Round) (hwf : Rou
       show (ticks cfg (preS cfg s r)).out = _
       rw [hsPe]; exact heT
     rw [hno]
-    have hdep : ErrExt ["C07"] Xc (checkDepartures cfg Xc none (E1 ++ E2)) := by
-      refine checkDepartures_c14 cfg Xc none (E1 ++ E2)
-        (dep_c14_end hsimA ctT.top.aopen (E1 ++ E2) ?_ ?_ ?_ (fun o d U hU => ?_))
+    have hdep : ErrExt ["C07"] Xc (checkDeparturesAny cfg Xc (some ((preAcc a r).w ++ preW a r)) none (E1 ++ E2)) := by
+      refine errExt_any (checkDepartures_c14 cfg _ none (E1 ++ E2)
+        (dep_c14_end hsimA ctT.top.aopen (E1 ++ E2) ?_ ?_ ?_ (fun o d U hU => ?_)))
       · rw [applyDepartures_map, applyDepartures_map]
         show List.map _ Xc.mods = List.map _ (preAcc a r).mods
         rw [hXe.mods]
@@ -275,13 +276,13 @@ theorem round_c14 {a : A} {s : State} (inv : Inv cfg a s) (r : Round) (hwf : Rou
       · obtain ⟨ext, oe, p⟩ := ctT.cnt o d U hU
         have : ext = E1 ++ E2 := List.append_cancel_left (oe.symm.trans heT)
         rw [← this]; exact p
-    show NoErr "C14" (applyDepartures (checkDepartures cfg Xc none (E1 ++ E2)) (E1 ++ E2))
+    show NoErr "C14" (applyDepartures (checkDeparturesAny cfg Xc (some ((preAcc a r).w ++ preW a r)) none (E1 ++ E2)) (E1 ++ E2))
     exact noErr_applyDepartures _ (hdep.noErr (by simp) (hXe.noErr (by simp) hnAcc))
   · -- at least one frame was read
     have := readAll_go_c14 ok hfuel hperm hmt reads (goStart cfg (preAcc a r) (preW a r) []) sP
       (ticks cfg (readAll cfg reads sP)) (E1 ++ E2) (reads.length + (Spec.splitRd (E1 ++ E2)).2.length + 1)
       inv0 hwf' (by omega) q (Or.inr rfl) hE hn0
-    rw [hevs, preSt_ne a r hp2]
+    rw [hevs, preSt_ne a r hp2, preU_ne a r hp2, goStartU_none]
     have hpre : (Spec.splitRd (E1 ++ E2)).1 = [] := hp1
     rw [hpre]
     exact this
